@@ -167,37 +167,50 @@ func bfsExpandUnit(r *eng.Run, spec eng.SeqSpec, cfg, infile, outfile string) {
 	must(os.WriteFile(outfile, ob, 0o644))
 }
 
-// exploreSharded is the parent side.
+// exploreSharded is the parent side. Depth-major: all configurations are
+// taken to depth d before any goes to depth d+1, so a budget cut leaves every
+// configuration explored to (nearly) the same depth.
 func exploreSharded(r *eng.Run, spec eng.SeqSpec) {
 	tmp, err := os.MkdirTemp("", "bfs-")
 	must(err)
 	defer os.RemoveAll(tmp)
 	totalStates := 0
-	depthDone := map[string]any{}
-	for ci, cfg := range spec.Configs {
-		seen := map[string]bool{}
-		frontier := [][]string{{}}
-		{
-			s := spec.New(cfg)
-			if k := s.Key(); k != "" {
-				seen[hashKey(k)] = true
-			}
-			var v *eng.Violation
-			if pv := eng.Guard("init", func() { v = s.Check() }); pv != nil {
-				v = pv
-			}
-			if v != nil {
-				v.Replay = seqRep{cfg, nil}
-				r.Report(v)
-			}
-			s.Close()
-			totalStates++
+	type cfgState struct {
+		seen     map[string]bool
+		frontier [][]string
+		done     int
+		stopped  bool
+	}
+	cs := map[string]*cfgState{}
+	for _, cfg := range spec.Configs {
+		st := &cfgState{seen: map[string]bool{}, frontier: [][]string{{}}}
+		cs[cfg] = st
+		s := spec.New(cfg)
+		if k := s.Key(); k != "" {
+			st.seen[hashKey(k)] = true
 		}
-		done := 0
-		for depth := 1; depth <= spec.Depth && len(frontier) > 0; depth++ {
+		var v *eng.Violation
+		if pv := eng.Guard("init", func() { v = s.Check() }); pv != nil {
+			v = pv
+		}
+		if v != nil {
+			v.Replay = seqRep{cfg, nil}
+			r.Report(v)
+		}
+		s.Close()
+		totalStates++
+	}
+	for depth := 1; depth <= spec.Depth; depth++ {
+		for ci, cfg := range spec.Configs {
+			st := cs[cfg]
+			if st.stopped || len(st.frontier) == 0 {
+				continue
+			}
+			frontier := st.frontier
 			if r.Expired() {
-				r.Incomplete(fmt.Sprintf("budget expired: config %q completed to depth %d", cfg, done))
-				break
+				r.Incomplete(fmt.Sprintf("budget expired: config %q completed to depth %d", cfg, st.done))
+				st.stopped = true
+				continue
 			}
 			// a child process costs ~1 CPU-second to start: few chunks for small frontiers
 			nchunks := len(frontier) / 4
@@ -239,22 +252,23 @@ func exploreSharded(r *eng.Run, spec eng.SeqSpec) {
 				os.Remove(of)
 			}
 			if !complete || r.Expired() {
-				r.Incomplete(fmt.Sprintf("config %q: depth %d not completed (completed to depth %d)", cfg, depth, done))
-				break
+				r.Incomplete(fmt.Sprintf("config %q: depth %d not completed (completed to depth %d)", cfg, depth, st.done))
+				st.stopped = true
+				continue
 			}
 			sort.Slice(succs, func(a, b int) bool { return lessPath(succs[a].Path, succs[b].Path) })
 			next := [][]string{}
 			for _, sc := range succs {
 				if sc.Key != "" {
-					if seen[sc.Key] {
+					if st.seen[sc.Key] {
 						continue
 					}
-					seen[sc.Key] = true
+					st.seen[sc.Key] = true
 				}
 				totalStates++
 				next = append(next, sc.Path)
 			}
-			done = depth
+			st.done = depth
 			if len(next) > 0 {
 				r.Sample(map[string]any{"config": cfg, "ops": next[len(next)/2]})
 			}
@@ -264,12 +278,15 @@ func exploreSharded(r *eng.Run, spec eng.SeqSpec) {
 				next = next[:spec.MaxStates]
 			}
 			r.Logf("config %s depth %d: %d successors, %d new states", cfg, depth, len(succs), len(next))
-			frontier = next
+			st.frontier = next
 		}
-		if len(frontier) == 0 {
-			depthDone[cfg] = fmt.Sprintf("%d (state space closed)", done)
+	}
+	depthDone := map[string]any{}
+	for cfg, st := range cs {
+		if len(st.frontier) == 0 && !st.stopped {
+			depthDone[cfg] = fmt.Sprintf("%d (state space closed)", st.done)
 		} else {
-			depthDone[cfg] = done
+			depthDone[cfg] = st.done
 		}
 	}
 	r.States(totalStates)
